@@ -407,7 +407,7 @@ Proof.
     assert (HBcx : forall i, i <> x -> Bb i x = O).
     { intros i Hi. unfold Bb. rewrite rval_id_outside by (right; exact Hxnb). apply sid_neq. exact Hi. }
     assert (Hcol : forall i, In i Vr -> i <> x -> A0 i x = O).
-    { intros i Hi Hne. unfold A0. rewrite (Hval0 i x Hi HxR).
+    { intros i Hi Hne. rewrite (Hval0 i x Hi HxR).
       destruct (String.eqb i x) eqn:Ei; [reflexivity|]. apply HBcx. exact Hne. }
     destruct (Hcf c Hcl0) as [Hclf [Hstar Hcolf]]. fold Vr in Hstar, Hcolf. fold A0 in Hstar, Hcolf.
     specialize (Hcolf x HxR Hcol).
@@ -420,14 +420,14 @@ Proof.
     { intros u v Hu Hv. rewrite <- (HeqB u v Hu Hv).
       destruct (in_dec string_dec u Vr) as [Hur|Hur];
         [destruct (in_dec string_dec v Vr) as [Hvr|Hvr]|].
-      - unfold A0. rewrite (Hval0 u v Hur Hvr). destruct (String.eqb u x); [apply sc_le_O | apply sc_le_refl].
+      - rewrite (Hval0 u v Hur Hvr). destruct (String.eqb u x); [apply sc_le_O | apply sc_le_refl].
       - rewrite HidA0, HidB by (right; exact Hvr). apply sc_le_refl.
       - rewrite HidA0, HidB by (left; exact Hur). apply sc_le_refl. }
     assert (Hle2 : leV V B (sadd A0 sid)).
     { intros u v Hu Hv. rewrite <- (HeqB u v Hu Hv). unfold sadd.
       destruct (in_dec string_dec u Vr) as [Hur|Hur];
         [destruct (in_dec string_dec v Vr) as [Hvr|Hvr]|].
-      - unfold A0 at 1. rewrite (Hval0 u v Hur Hvr). destruct (String.eqb u x) eqn:Eu.
+      - rewrite (Hval0 u v Hur Hvr). destruct (String.eqb u x) eqn:Eu.
         + apply String.eqb_eq in Eu. subst u. rewrite HBx. apply sc_le_ssum_r.
         + apply sc_le_ssum_l.
       - rewrite HidA0, HidB by (right; exact Hvr). apply sc_le_ssum_l.
